@@ -3,7 +3,14 @@
 package main
 
 import (
+	"bytes"
+	"crypto/sha1"
+	"encoding/hex"
+	"encoding/json"
 	"fmt"
+	"os"
+	"os/exec"
+	"strings"
 	"sync"
 	"sync/atomic"
 	"time"
@@ -255,4 +262,123 @@ func validateView(v *preconfirmed.ChainReader, b uint64) string {
 		return "view-not-aligned-to-head"
 	}
 	return ""
+}
+
+// ---- the concurrent stage runs in a child process ------------------------------------------------
+// An unsynchronised map access is a Go *fatal error* (not a panic) and a race report of a -race
+// build ends the process: neither can be recovered in-process, and they must not take the results
+// of the sequential stages with them.
+
+func (h *harness) runChild(bin string, extraEnv []string, tag string) {
+	out, err := os.CreateTemp("", "c20-conc-*.json")
+	if err != nil {
+		h.res.Note("concurrent stage: %v", err)
+		return
+	}
+	out.Close()
+	defer os.Remove(out.Name())
+	args := []string{"--mode", "conc", "--seed", fmt.Sprint(h.f.Seed), "--tier", h.f.Tier, "--out", out.Name()}
+	cmd := exec.Command(bin, args...)
+	cmd.Env = append(os.Environ(), extraEnv...)
+	var stderr bytes.Buffer
+	cmd.Stderr = &stderr
+	cmd.Stdout = &stderr
+	runErr := cmd.Run()
+	text := stderr.String()
+	var child struct {
+		Cases        int             `json:"cases"`
+		Distribution map[string]int  `json:"distribution"`
+		Violations   []lib.Violation `json:"violations"`
+		Notes        []string        `json:"notes"`
+	}
+	b, _ := os.ReadFile(out.Name())
+	parsed := len(b) > 0 && json.Unmarshal(b, &child) == nil
+	if parsed {
+		for k, v := range child.Distribution {
+			h.res.HitN(tag+k, v)
+		}
+		for i := 0; i < child.Cases; i++ {
+			h.res.Case(fmt.Sprintf("%sconc/%d/%d", tag, h.f.Seed, i), true)
+		}
+		for _, v := range child.Violations {
+			h.res.Violate(v)
+		}
+		for _, n := range child.Notes {
+			h.res.Note("%s%s", tag, n)
+		}
+	}
+	replay := map[string]any{"kind": "concurrent", "seed": h.f.Seed, "tier": h.f.Tier, "race_build": tag != ""}
+	switch {
+	case strings.Contains(text, "DATA RACE"):
+		h.res.Violate(lib.Violation{Sig: "data-race-between-writer-and-readers",
+			What: "the race detector reports unsynchronised access while one writer updates the chain and readers use views:\n" + raceExcerpt(text), Replay: replay})
+	case strings.Contains(text, "concurrent map"):
+		h.res.Violate(lib.Violation{Sig: "concurrent-map-access-between-writer-and-readers",
+			What: "Go runtime fatal error while one writer updates the chain and readers use views:\n" + tail(text, 1500), Replay: replay})
+	case runErr != nil || !parsed:
+		h.res.Violate(lib.Violation{Sig: "concurrent-stage-crashes",
+			What: fmt.Sprintf("child process of the concurrent stage failed (%v):\n%s", runErr, tail(text, 1500)), Replay: replay})
+	}
+}
+
+func tail(s string, n int) string {
+	if len(s) > n {
+		return s[len(s)-n:]
+	}
+	return s
+}
+
+func raceExcerpt(s string) string {
+	i := strings.Index(s, "WARNING: DATA RACE")
+	if i < 0 {
+		return tail(s, 1500)
+	}
+	s = s[i:]
+	if len(s) > 2500 {
+		s = s[:2500]
+	}
+	return s
+}
+
+func (h *harness) concurrentChild() {
+	self, err := os.Executable()
+	if err != nil {
+		h.res.Note("concurrent stage: %v", err)
+		return
+	}
+	h.runChild(self, nil, "")
+	if !h.f.Thorough() || *noRace {
+		return
+	}
+	// thorough tier: the same stage again, built with the race detector
+	bin, err := buildRaceTwin()
+	if err != nil {
+		h.res.Note("race twin not built (concurrent stage ran without -race only): %v", err)
+		return
+	}
+	h.runChild(bin, []string{"GORACE=halt_on_error=1 exitcode=66"}, "race:")
+}
+
+// buildRaceTwin compiles this harness with -race against the same juno tree the check uses.
+func buildRaceTwin() (string, error) {
+	repo := os.Getenv("VERIF_REPO")
+	if repo == "" {
+		repo = "/repo"
+	}
+	tag := ""
+	args := []string{"build", "-race"}
+	if repo != "/repo" {
+		sum := sha1.Sum([]byte(repo))
+		tag = "-" + hex.EncodeToString(sum[:])[:8]
+		args = append(args, "-modfile=/verif/.build/go"+tag+".mod")
+	}
+	bin := "/verif/.build/vh-c20-race" + tag
+	args = append(args, "-tags", "verif", "-o", bin, "./cmd/c20")
+	cmd := exec.Command("go", args...)
+	cmd.Dir = "/verif/harness"
+	cmd.Env = os.Environ()
+	if out, err := cmd.CombinedOutput(); err != nil {
+		return "", fmt.Errorf("%v: %s", err, tail(string(out), 600))
+	}
+	return bin, nil
 }
